@@ -27,8 +27,14 @@ MANIFEST = dict(
 W = "esutil/recfile/records.cpp"
 
 
+# rules that keep their verdict however the code is laid out (decided by term equality, effect analysis or dominance over
+# resolved calls); every other rule of this check is a template rule (vcheck.core.Check.obt)
+SEMANTIC = ('R01.1', 'R01.4', 'R01.6')
+
+
 def run(chk):
     repo = PyRepo()
+    chk.set_templates(repo, semantic=SEMANTIC)
     chk.explanation = MANIFEST["text"]
     chk.trusted = ["pprint.pformat repr-escapes string content", "clang 14 AST", "SWIG naming convention"]
     chk.floor = 40
